@@ -28,6 +28,9 @@ def gen_instrs(ctx, impl, n_rand):
                 name, lv = ci.gen_in_range_instr(rng, row)
                 lv[rng.choice(wide)] = rng.choice([2 ** 31, -(2 ** 31) - 1, 10 ** 20, -(10 ** 12), 256, 4294967296])
                 out.append((fname, [name, lv], "wide"))
+            # instructions annotated with the host application line (lineno=HostLine(...))
+            for _ in range(2):
+                out.append((fname, list(ci.gen_in_range_instr(rng, row)), "lineno", None, None, rng.randint(1, 400)))
     return out
 
 
@@ -65,7 +68,8 @@ def gen_mutations(ctx, impl, n_rand):
                     if after[a:a + n] == before[a:a + n]:  # must really change: move the last leaf inside its range
                         lo, hi = rs[a + n - 1]
                         after[a + n - 1] = before[a + n - 1] + 1 if before[a + n - 1] < hi else before[a + n - 1] - 1
-                out.append((fname, [name, list(before)], "mutated", after, plan))
+                out.append((fname, [name, list(before)], "mutated", after, plan,
+                            rng.randint(1, 400) if rng.random() < 0.2 else None))
     return out
 
 
@@ -76,7 +80,8 @@ def parse_back(impl, fname, instr, text):
         instrs = list(sub.instructions)
     except Exception as e:  # refusal to parse
         return False, None, type(e).__name__
-    return instrs == [instr], (impl.view_instr(instrs[0]) if len(instrs) == 1 else None), None
+    ok = instrs == [instr] if instr.lineno is None else same_modulo_lineno(impl, instrs, instr)
+    return ok, (impl.view_instr(instrs[0]) if len(instrs) == 1 else None), None
 
 
 def assign_operands(impl, fname, instr, name, after, plan):
@@ -88,29 +93,47 @@ def assign_operands(impl, fname, instr, name, after, plan):
         setattr(instr, fields[j], ct.mk_operand(impl.operand, impl.encoding, kinds[j], after[a:a + n]))
 
 
-def run_one(impl, fname, p, after=None, plan=None):
+def host_line(impl, n):
+    from netqasm.util.log import HostLine
+    return HostLine("app_alice.py", n)
+
+
+def same_modulo_lineno(impl, instrs, instr):
+    """[instr] up to the optional host line annotation (the text does not carry it)"""
+    return len(instrs) == 1 and type(instrs[0]) is type(instr) and impl.view_instr(instrs[0]) == impl.view_instr(instr)
+
+
+def run_one(impl, fname, p, after=None, plan=None, lineno=None):
     """-> dict(instr, str, back, ok).  With after/plan: the object is printed and parsed, then its
     operand fields are assigned in place, and the SECOND print / parse is what is reported
     (instr = the operands the object holds now)."""
     instr = impl.build_instr(fname, p[0], p[1])
+    if lineno is not None:
+        # the SDK (LogConfig.track_lines) and the NV transpiler attach the host application line
+        instr.lineno = host_line(impl, lineno)
     s = str(instr)
     ok, back, err = parse_back(impl, fname, instr, s)
     if after is None or not ok:
-        return dict(instr=p, str=s, back=back, ok=ok, err=err)
+        return dict(instr=p, str=s, back=back, ok=ok, err=err, lineno=lineno)
     assign_operands(impl, fname, instr, p[0], after, plan)
     now = impl.view_instr(instr)
     s2 = str(instr)
     ok2, back2, err2 = parse_back(impl, fname, instr, s2)
     fresh = str(impl.build_instr(fname, p[0], after))
-    return dict(instr=[p[0], list(after)], str=s2, back=back2, ok=ok2 and s2 == fresh and now == [p[0], list(after)],
+    return dict(lineno=lineno, instr=[p[0], list(after)], str=s2, back=back2,
+                ok=ok2 and s2 == fresh and now == [p[0], list(after)],
                 err=err2, before=p, first_print=s, changed_operands=plan, fresh_print=fresh, holds_now=now)
 
 
-def stable_oracle(impl, fname, body, muts=None):
+def stable_oracle(impl, fname, body, muts=None, reader=None, poison=None, linenos=None):
     """text -> binary -> text for a whole subroutine; None if it holds, else a description.
     muts = {position: (leaves after, changed operand indices)}: the instruction objects are printed
-    once, changed in place, and the subroutine is printed again before the round trip."""
+    once, changed in place, and the subroutine is printed again before the round trip.
+    reader: a long-lived Deserializer object reused across calls (besides the module-level deserialize());
+    poison: a buffer the reader must reject right before (unknown opcode for the flavour / truncated)."""
     instrs = [impl.build_instr(fname, n, lv) for n, lv in body]
+    for k in (linenos or {}):
+        instrs[k].lineno = host_line(impl, linenos[k])
     lines = [str(i) for i in instrs]
     first = None
     if muts:
@@ -123,7 +146,7 @@ def stable_oracle(impl, fname, body, muts=None):
             return dict(first_print=first, second_print=lines, expected=expect)
     try:
         sub = impl.text.parse_text_subroutine(ac.HEADER + "\n".join(lines) + "\n", flavour=impl.flav[fname])
-        if muts and list(sub.instructions) != instrs:
+        if (muts or linenos) and [impl.view_instr(i) for i in sub.instructions] != [impl.view_instr(i) for i in instrs]:
             return dict(first_print=first, second_print=lines, error="parsed subroutine differs from the objects")
         raw = bytes(sub)
         back = impl.deserialize(raw, flavour=impl.flav[fname])
@@ -132,7 +155,37 @@ def stable_oracle(impl, fname, body, muts=None):
         return dict(lines=lines, error=type(e).__name__ + ": " + str(e)[:200])
     if lines2 != lines:
         return dict(lines=lines, after=lines2)
+    if reader is not None:
+        rejected = None
+        if poison is not None:
+            try:
+                reader.deserialize_subroutine(bytes(poison))
+                rejected = False
+            except Exception:  # the reader refuses the bad message
+                rejected = True
+        try:
+            back3 = reader.deserialize_subroutine(raw)
+            lines3 = [str(i) for i in back3.instructions]
+        except Exception as e:
+            return dict(lines=lines, long_lived_reader_error=type(e).__name__ + ": " + str(e)[:200],
+                        previous_message_rejected=rejected, poison=list(poison) if poison is not None else None)
+        if lines3 != lines:
+            return dict(lines=lines, after_long_lived_reader=lines3, previous_message_rejected=rejected,
+                        poison=list(poison) if poison is not None else None)
     return None
+
+
+def poison_buffer(rng, impl, fname, raw):
+    """a message the flavour's deserializer must reject: an opcode the flavour does not have in a later
+    command, or a truncated buffer"""
+    raw = bytearray(raw)
+    ids = {r["id"] for r in impl.ct["flavours"][fname]["rows"]}
+    unknown = [i for i in range(256) if i not in ids]
+    ncmd = (len(raw) - 4) // 7
+    if ncmd >= 1 and rng.random() < 0.6:
+        raw[4 + 7 * rng.randrange(ncmd)] = rng.choice(unknown)
+        return bytes(raw)
+    return bytes(raw[: len(raw) - rng.randint(1, 6)]) if len(raw) > 10 else bytes(raw) + b"\x00\x01"
 
 
 def evaluate(ctx, impl, items, prefix):
@@ -155,7 +208,9 @@ def run(ctx):
                 "[instr]; the same after print -> assign new operands to dataclass fields of the SAME object (each operand "
                 "field of each class alone, all at once, random subsets) -> print, where the second text must be the text of "
                 "the current operands; plus random in-range sequences (len 1..25) through text -> binary -> text, half of "
-                "them printed twice around in-place changes of 1..3 instructions; non-trivial = every case; distinct = "
+                "them printed twice around in-place changes of 1..3 instructions, every one also decoded by ONE long-lived "
+                "Deserializer object per flavour that is fed rejected messages (unknown opcode, truncated) in between; a "
+                "share of instructions carries lineno=HostLine(..) (compared modulo lineno); non-trivial = every case; distinct = "
                 "distinct (flavour, class, operands [before, after])")
     impl = ac.prepare(ctx)
     if impl is None:
@@ -179,12 +234,16 @@ def run(ctx):
                                object_holds=r["holds_now"], parsed_back=r["back"], err=r["err"],
                                instr=r["before"], after=r["instr"][1], plan=r["changed_operands"]), key=None)
         elif not r["ok"]:
-            ctx.violation("parse_text_subroutine(str(instr), flavour).instructions != [instr]",
-                          dict(flavour=r["flavour"], instr=r["instr"], printed=r["str"], parsed_back=r["back"], err=r["err"]),
-                          key=None)
+            ctx.violation("parse_text_subroutine(str(instr), flavour).instructions != [instr]"
+                          + (" (instruction annotated with lineno=HostLine(..); compared modulo lineno)" if r.get("lineno") else ""),
+                          dict(flavour=r["flavour"], instr=r["instr"], lineno=r.get("lineno"), printed=r["str"],
+                               parsed_back=r["back"], err=r["err"]), key=None)
     ctx.samples = [dict(flavour=r["flavour"], instr=r["instr"], printed=r["str"]) for r in results[:3] + results[-3:]]
     rng = ctx.rng
     n_seq, n_bad, n_mut_seq = (120 if quick else 3000), 0, 0
+    from netqasm.lang.parsing.binary import Deserializer
+    readers = {f: Deserializer(impl.flav[f]) for f in ac.FLAVS}  # ONE object per flavour for the whole stream
+    n_poison, last_raw = 0, {}
     for _ in range(n_seq):
         fname = rng.choice(ac.FLAVS)
         rows = impl.ct["flavours"][fname]["rows"]
@@ -206,15 +265,27 @@ def run(ctx):
                     after[a:a + n] = fresh[a:a + n]
                 muts[k] = (after, plan)
             n_mut_seq += 1
-        bad = stable_oracle(impl, fname, body, muts)
+        poison = None
+        if fname in last_raw and rng.random() < 0.4:
+            poison = poison_buffer(rng, impl, fname, last_raw[fname])
+            n_poison += 1
+        linenos = {k: rng.randint(1, 400) for k in range(len(body)) if rng.random() < 0.15}
+        bad = stable_oracle(impl, fname, body, muts, reader=readers[fname], poison=poison, linenos=linenos)
+        try:
+            last_raw[fname] = bytes(impl.Subroutine(instructions=[impl.build_instr(fname, n, lv) for n, lv in body],
+                                                    app_id=0))
+        except Exception:  # noqa
+            pass
         if bad is not None:
             n_bad += 1
             ctx.violation("text -> binary -> text is not stable for a subroutine"
                           + (" printed again after in-place changes of its instructions" if muts else ""),
-                          dict(flavour=fname, body=body, mutations={str(k): v for k, v in (muts or {}).items()}, **bad),
+                          dict(flavour=fname, body=body, mutations={str(k): v for k, v in (muts or {}).items()},
+                               linenos={str(k): v for k, v in linenos.items()}, **bad),
                           key=None)
     stats["sequences"] = n_seq
     stats["sequences-printed-twice-around-in-place-change"] = n_mut_seq
+    stats["sequences-after-a-rejected-message-on-the-long-lived-reader"] = n_poison
     ctx.coverage["stream_distribution"] = stats
     ctx.coverage["model_impl_differences"] = len(differing)
     ctx.trusted.append("correspondence: Text.pp_instr / Text.parse_line evaluated by vm_compute inside coqc on generated case "
@@ -294,7 +365,7 @@ def replay(ctx, path):
     rec = rec.get("replay", rec)
     impl = ac.prepare(ctx)
     if "instr" in rec:
-        r = run_one(impl, rec["flavour"], rec["instr"], rec.get("after"), rec.get("plan"))
+        r = run_one(impl, rec["flavour"], rec["instr"], rec.get("after"), rec.get("plan"), rec.get("lineno"))
         print("replay:", r)
         if not r["ok"]:
             ctx.violation("str(instr) does not parse back to [instr] (after in-place changes if 'after' is given)", rec)
